@@ -519,10 +519,15 @@ asn1f_check_duplicate(arg_t *arg) {
 				  arg->expr->Identifier))
 				continue;
 
-			/* resolve clash of Identifier in different modules */
+			/*
+			 * resolve clash of Identifier in different modules
+			 * (two assignments in ONE module can not be told apart
+			 * by a module prefix: always a clash)
+			 */
 			int oid_exist = (tmparg.expr->module->module_oid && arg->expr->module->module_oid);
-			if ((!oid_exist && strcmp(tmparg.expr->module->ModuleName, arg->expr->module->ModuleName)) ||
-				(oid_exist && !asn1p_oid_compare(tmparg.expr->module->module_oid, arg->expr->module->module_oid))) {
+			if (tmparg.expr->module != arg->expr->module &&
+				((!oid_exist && strcmp(tmparg.expr->module->ModuleName, arg->expr->module->ModuleName)) ||
+				(oid_exist && !asn1p_oid_compare(tmparg.expr->module->module_oid, arg->expr->module->module_oid)))) {
 
 				tmparg.expr->_mark |= TM_NAMECLASH;
 				arg->expr->_mark |= TM_NAMECLASH;
